@@ -129,10 +129,16 @@ def install(ctx, repo, probes):
                     ctx.violation("to_epoch.raised", "seconds_since_unix_"
                                   "epoch of %r raised %r" % (key, exc))
                 else:
-                    if true.denominator == 1:
+                    hform_minutes = (key[3] is None and key[4] is None
+                                     and key[6] % 60)
+                    if true.denominator == 1 and not hform_minutes:
                         ok = res == str(int(true))
                     else:
-                        ok = res in (str(int(true // 1)),
+                        # tolerance regime (fractional fields, or a decimal-
+                        # hour point re-zoned by minutes): a neighbouring
+                        # whole second is accepted
+                        ok = res in (str(int(true // 1) - 1),
+                                     str(int(true // 1)),
                                      str(int(true // 1) + 1))
                     if not ok:
                         ctx.violation("to_epoch.wrong", "seconds_since_unix_"
